@@ -10,7 +10,7 @@ import RedisVerif.Model.WalActor
         W <ngroups> {<nmsgs> {w <id> <ts> <hex> | f <id> <ts> <hex> | t | x <T>}*}*
         E <c|s|e> }*
   (w = write_durable, c = write_durable whose caller is cancelled while it waits (its ack is not printed),
-   f = write_fire_and_forget, t = sync_tick, x = truncate(T); D k = every I/O call
+   f = write_fire_and_forget, s = shutdown() sent as a message of the burst, t = sync_tick, x = truncate(T); D k = every I/O call
    with index >= k of this incarnation fails, i.e. the machine is dying from call k on;
    E c = machine crash then restart, E s = clean shutdown then restart, E e = end of the history)
   Output: the acks (sorted by id), the I/O call trace, and for EVERY crash index t (after t
@@ -55,10 +55,16 @@ def showCall : Call → String
   | .sync s ok => s!"s{s}:{if ok then "ok" else "err"}"
   | .delete s ok => s!"d{s}:{if ok then "ok" else "err"}"
 
+/-- a mailbox message: an event of the model, or `Shutdown` -/
+inductive Msg where
+  | ev (e : Ev)
+  | shutdown
+  deriving Repr
+
 structure Inc where
   faults : List (Nat × Outcome)
   dead : Option Nat
-  groups : List (List Ev)
+  groups : List (List Msg)
   ending : String
 
 structure Workload where
@@ -77,15 +83,16 @@ structure Workload where
 
 /-- one message; `xl` (a truncate whose `store.list()` fails: the actor logs the error and does
     nothing) is no event at all -/
-def msgP : P (List Ev) := do
+def msgP : P (List Msg) := do
   let k ← tok
   match k with
-  | "w" => do let id ← nat; let ts ← nat; let d ← bytesTok; pure [Ev.write ⟨id, d, ts⟩]
-  | "c" => do let id ← nat; let ts ← nat; let d ← bytesTok; pure [Ev.write ⟨id, d, ts⟩]
-  | "f" => do let id ← nat; let ts ← nat; let d ← bytesTok; pure [Ev.forget ⟨id, d, ts⟩]
-  | "t" => pure [Ev.tick]
-  | "x" => do let T ← nat; pure [Ev.truncate T]
+  | "w" => do let id ← nat; let ts ← nat; let d ← bytesTok; pure [.ev (Ev.write ⟨id, d, ts⟩)]
+  | "c" => do let id ← nat; let ts ← nat; let d ← bytesTok; pure [.ev (Ev.write ⟨id, d, ts⟩)]
+  | "f" => do let id ← nat; let ts ← nat; let d ← bytesTok; pure [.ev (Ev.forget ⟨id, d, ts⟩)]
+  | "t" => pure [.ev Ev.tick]
+  | "x" => do let T ← nat; pure [.ev (Ev.truncate T)]
   | "xl" => pure []
+  | "s" => pure [.shutdown]
   | _ => failure
 
 def incP : P Inc := do
@@ -151,23 +158,74 @@ def idOf (ws : List Write) (e : Entry) : String :=
   | some w => toString w.id
   | none => "?"
 
-def runInc (wl : Workload) (a : Actor) (inc : Inc) : Actor :=
+/-- where `run_always_mode` is when it takes a message: at the top of its loop (`recv().await`),
+    inside the group-commit wait (`timeout(.., async { while .. recv().await .. })`), or in the
+    drain loop (`try_recv`).  A `Shutdown` handled at the top or in the drain loop ends the actor;
+    handled inside the wait it only leaves the wait (the `return` is the async block's) and the actor
+    goes on.  This scheduling glue is NOT part of the verified model: whatever it decides, the
+    result is `Actor.step` applied to some event list, and the theorems cover every event list. -/
+inductive Phase where
+  | top | block | drain
+  deriving DecidableEq, Repr
+
+structure Sched where
+  a : Actor
+  phase : Phase := .top
+  alive : Bool := true
+  /-- `write_durable` callers whose message the actor never handled: they get an I/O error -/
+  dropped : List Nat := []
+
+def idsOfMsg : Msg → List Nat
+  | .ev (.write w) => [w.id]
+  | _ => []
+
+def schedAlways (wl : Workload) (φ : Nat → Outcome) (s : Sched) (m : Msg) : Sched :=
+  if !s.alive then { s with dropped := s.dropped ++ idsOfMsg m } else
+  match m with
+  | .shutdown =>
+    let a1 := Actor.flush wl.fix φ s.a
+    (match s.phase with
+    | .block => { s with a := a1, phase := .drain }
+    | _ => { s with a := a1, alive := false })
+  | .ev e =>
+    let a1 := Actor.step wl.fix wl.tick φ wl.fmt crc s.a e
+    if wl.maxEntries ≤ a1.esync then { s with a := Actor.flush wl.fix φ a1, phase := .top }
+    else
+      (match s.phase with
+      | .top => { s with a := a1, phase := if a1.esync = 0 then .drain else .block }
+      | ph => { s with a := a1, phase := ph })
+
+/-- the mailbox ran empty: the wait times out / the drain loop breaks, whatever is pending is flushed -/
+def endBurstAlways (wl : Workload) (φ : Nat → Outcome) (s : Sched) : Sched :=
+  if s.alive then { s with a := Actor.flush wl.fix φ s.a, phase := .top } else s
+
+def schedNow (pol : Policy) (wl : Workload) (φ : Nat → Outcome) (s : Sched) (m : Msg) : Sched :=
+  if !s.alive then { s with dropped := s.dropped ++ idsOfMsg m } else
+  match m with
+  | .shutdown => { s with a := if pol = .everySecond then Actor.tickEverySec φ s.a else s.a, alive := false }
+  | .ev e => { s with a := Actor.stepP pol φ wl.fmt crc s.a e }
+
+def runInc (wl : Workload) (st : Actor × List Nat) (inc : Inc) : Actor × List Nat :=
   let φ := oracleOf inc.faults inc.dead
+  let (a, dropped0) := st
   match wl.policy with
   | .always =>
-    let a1 := inc.groups.foldl (Actor.runGroup wl.fix wl.tick φ wl.fmt crc wl.maxEntries) a
+    let s1 := inc.groups.foldl (fun s g => endBurstAlways wl φ (g.foldl (schedAlways wl φ) s)) ({ a := a } : Sched)
+    let a1 := s1.a
     (match inc.ending with
     | "c" => Actor.step wl.fix wl.tick φ wl.fmt crc a1 (.reopen true wl.reuse)
     | "s" => Actor.step wl.fix wl.tick φ wl.fmt crc a1 (.reopen false wl.reuse)
-    | _ => a1)
+    | _ => a1, dropped0 ++ s1.dropped)
   | pol =>
     -- EverySecond / No: one message after the other, no group commit; the harness ends the last
     -- incarnation with `shutdown()` (EverySecond: one more sync if anything is unsynced)
-    let a1 := inc.groups.flatten.foldl (Actor.stepP pol φ wl.fmt crc) a
+    let s1 := inc.groups.flatten.foldl (schedNow pol wl φ) ({ a := a } : Sched)
+    let a1 := s1.a
     (match inc.ending with
     | "c" => Actor.stepP pol φ wl.fmt crc a1 (.reopen true wl.reuse)
-    | "s" => Actor.stepP pol φ wl.fmt crc a1 (.reopen false wl.reuse)
-    | _ => if pol = .everySecond then Actor.tickEverySec φ a1 else a1)
+    | "s" => if s1.alive then Actor.stepP pol φ wl.fmt crc a1 (.reopen false wl.reuse)
+             else Actor.stepP .no φ wl.fmt crc a1 (.reopen false wl.reuse)
+    | _ => if pol = .everySecond && s1.alive then Actor.tickEverySec φ a1 else a1, dropped0 ++ s1.dropped)
 
 def showPolicy : Policy → String
   | .always => "a" | .everySecond => "e" | .no => "n"
@@ -194,10 +252,13 @@ def step (line : String) : String :=
   | none => "bad-op"
   | some wl0 =>
     let wl := { wl0 with cancelled := cancelledIds (tokens line) }
-    let a := wl.incs.foldl (runInc wl) (Actor.init wl.maxSize)
+    let (a, dropped) := wl.incs.foldl (runInc wl) (Actor.init wl.maxSize, [])
     let ws := (wl.incs.flatMap (fun i => i.groups.flatten)).filterMap
-      (fun ev => match ev with | .write w => some w | .forget w => some w | _ => none)
-    let acks := (a.acks.filter (fun x => !wl.cancelled.contains x.id)).foldl (fun acc x => insertAck x acc) []
+      (fun m => match m with | .ev (.write w) => some w | .ev (.forget w) => some w | _ => none)
+    -- callers whose message was never handled (the actor had stopped): an I/O error, no entry
+    let droppedAcks : List AckRec := (dropped.filter (fun i => !wl.cancelled.contains i)).map
+      (fun i => ⟨i, ⟨[], 0, 0⟩, .err .io, 0⟩)
+    let acks := ((a.acks.filter (fun x => !wl.cancelled.contains x.id)) ++ droppedAcks).foldl (fun acc x => insertAck x acc) []
     let acksS := if wl.noAcks then "-" else " ".intercalate (acks.map (fun x => s!"{x.id}={showAck x.res}"))
     let traceS := " ".intercalate (a.rot.w.trace.reverse.map showCall)
     let crashS := " ; ".intercalate (a.rot.w.hist.reverse.map (fun st =>
